@@ -151,3 +151,16 @@ M("c13.mars-station-swap", "C13", MA, "        corr = (-37.079 + t * (-0.0009 + 
 M("c13.venus-elong-angle", "C13", V, "        elon = (46.3245\n", "        elon = (46.5245\n")
 M("c13.mars-nodes-asc", "C13", C, "    if ascending:\n        v = 360.0 - omega\n    else:\n        v = 180.0 - omega\n    # Compute the eccentric anomaly", "    if ascending:\n        v = 180.0 - omega\n    else:\n        v = 360.0 - omega\n    # Compute the eccentric anomaly")
 M("c13.mercury-m1", "C13", "pymeeus/Mercury.py", "        m1 = 114.2088742\n", "        m1 = 114.2808742\n")
+# ---- C14
+M("c14.k90+0.01", "C14", S, "            arg = k * 90.0 - lon.to_positive()", "            arg = k * 90.0 + 0.01 - lon.to_positive()")
+M("c14.season-const", "C14", S, "365242.37404", "365242.73404")
+M("c14.season-loop-tol", "C14", S, "while abs(corr) > 0.0000025:", "while abs(corr) > 0.0025:")
+M("c14.sunrise-0.83", "C14", E, "corr = -0.83 - 2.076 * sqrt(altitude) / 60.0", "corr = -0.38 - 2.076 * sqrt(altitude) / 60.0", note="0.45 deg shift: inside the 1 deg allowance unless combined with the base error")
+M("c14.sunrise-jtran", "C14", E, "jtran = 2451545.5 + jstar", "jtran = 2451545.0 + jstar")
+M("c14.sunrise-23.44", "C14", E, "sin_delta = sin(lr) * sin(radians(23.44))", "sin_delta = sin(lr) * sin(radians(24.34))", note="0.9 deg * sin(lambda): may stay inside 1 deg")
+M("c14.rts-sidereal-rate", "C14", C, "theta = theta0 + 360.985647 * m1", "theta = theta0 + 360.895647 * m1")
+M("c14.rts-one-iteration", "C14", C, "    for _ in range(2):\n        # Interpolate alpha", "    for _ in range(1):\n        # Interpolate alpha")
+M("c14.rts-circumpolar", "C14", C, "    if abs(hh0) > 1.0:\n        return (None, None, None)", "    if abs(hh0) > 1.1:\n        return (None, None, None)")
+M("c14.eot-const", "C14", S, "e = l0() - 0.0057183 - alpha()", "e = l0() - 0.57183 - alpha()")
+M("c14.eot-x4", "C14", S, "        e *= 4.0\n", "        e *= 4.0\n        e = e + 1.2 if e > 16.0 else e\n")
+M("c14.season-range", "C14", S, "        elif (year >= 1000) and (year <= 3000):", "        elif (year >= 1000) and (year <= 3100):")
